@@ -28,6 +28,7 @@ let suites : (string * (Sexp.t -> Sexp.t -> Verdict.t)) list = [
   "crash", S_redis.run_crash;
   "penc", S_penc.run_penc;
   "rsess", S_rsess.run_rsess;
+  "cfgv", S_cfgv.run_cfgv;
   "auth", S_auth.run_auth;
   "authwire", S_auth.run_authwire;
   "fedq", S_fed.run_fedq;
